@@ -39,6 +39,9 @@ out += ['', '%d seeded changes confirmed; every one is caught by the check of th
         'Hand-written mutants (`sensitivity/mutants.json`, results in SENSITIVITY.md) complement these:',
         'each was applied alone to a scratch copy; equivalent mutants and two deliberate *repairs* of the',
         'fairness code are listed there as expected survivors (the repairs must not raise an alarm).', '']
+rj = os.path.join(V, 'seeded', '_rejected', 'README.md')
+if os.path.exists(rj):
+    out += ['### Proposed changes that were not kept', ''] + [l.rstrip('\n') for l in open(rj).readlines()[1:]] + ['']
 p = os.path.join(V, 'DESIGN.md')
 s = open(p).read()
 if MARK in s:
